@@ -114,3 +114,13 @@ Definition dec_pos (q : position) : pos :=
   | PPtr | PPtrPtr | PIfacePtr | PTop => mkpos true true
   | _ => mkpos false true
   end.
+
+(* ---- round trip through whatever is chosen: user hooks (and the kind coding) are abstract, one
+   pair per mechanism, with the wire form they produce / consume ---- *)
+Section RoundTrip.
+  Variables X W : Type.
+  Variable marshal : mech -> X -> W.
+  Variable unmarshal : mech -> W -> X.
+  Definition encX (f : flags) (x : X) : W := marshal (fst (enc_choice f)) x.
+  Definition decX (f : flags) (w : W) : X := unmarshal (fst (dec_choice f)) w.
+End RoundTrip.
